@@ -7,6 +7,7 @@ Local Open Scope string_scope.
 Local Open Scope R_scope.
 
 Local Arguments k_std_sag : simpl never.
+Local Arguments k_rg_z_offset : simpl never.
 
 Definition ray8 : Type := (R * R * R * R * R * R * R * R)%type.
 Definition r_x (r : ray8) : R := match r with (x, _, _, _, _, _, _, _) => x end.
@@ -33,12 +34,12 @@ Lemma sqrt_square_abs x : sqrt (x * x) = Rabs x.
 Proof. change (x*x) with (Rsqr x). apply sqrt_Rsqr_abs. Qed.
 
 Section Launch.
-  Variables Hx Hy Px Py w v0 v1 mf EPL EPD objR objk objz apv : R.
+  Variables Hx Hy Px Py w v0 v1 mf EPL EPD objR objk objz n0 apv : R.
   Variable pos : list R.
   Variables (ap pol : string) (upol : bool).
 
   Notation gen inf ft tele :=
-    (k_rg_generate ROps Hx Hy Px Py w v0 v1 mf inf ft tele EPL EPD pos objR objk objz ap apv pol upol).
+    (k_rg_generate ROps Hx Hy Px Py w v0 v1 mf inf ft tele EPL EPD pos objR objk objz ap n0 apv pol upol).
   Notation origins inf ft tele :=
     (k_rg_origins ROps Hx Hy Px Py (1 - v0) (1 - v1) mf inf ft tele EPL EPD pos objR objk objz).
 
@@ -54,6 +55,7 @@ Section Launch.
     destruct (k_rg_origins ROps Hx Hy Px Py (1 - v0) (1 - v1) mf inf ft false EPL EPD pos objR objk objz)
       as [[[x y] z]|] eqn:E; [|discriminate].
     intros H. exists x, y, z. split; [reflexivity|].
+    destruct (String.eqb ap "objectNA" && inf)%bool; [discriminate|].
     destruct (String.eqb pol "ignore"); [destruct upol; [discriminate|]|]; inversion H; reflexivity.
   Qed.
 
@@ -87,7 +89,19 @@ Section Launch.
     unfold k_rg_origins in Ho. cbn in Ho. rops. inversion Ho. cbn. auto.
   Qed.
 
-  Definition offset : R := k_rg_z_offset ROps pos EPD.
+  Definition offset : R := k_rg_z_offset ROps pos EPD EPL.
+  (** leftmost vertex of the lens proper (positions[1:-1]) *)
+  Definition zmin : R := min_list (O := ROps) (sliceZ pos 1 (Some (Z.opp 1))).
+
+  (** the repaired launch plane z = -offset lies at least one pupil diameter to the left of the entrance pupil
+      and of every surface *)
+  Lemma offset_bounds : EPD <= offset + EPL /\ EPD - zmin <= offset.
+  Proof.
+    unfold offset, k_rg_z_offset, zmin. rops. set (m := min_list _).
+    destruct (Rltb EPL m) eqn:E.
+    - apply Rltb_true in E. split; lra.
+    - apply Rltb_false in E. split; lra.
+  Qed.
   Definition tanx : R := tan (deg (mf * Hx)).
   Definition tany : R := tan (deg (mf * Hy)).
 
@@ -101,7 +115,7 @@ Section Launch.
   Proof.
     intros H Hp1 Hne s. destruct (gen_nontele_shape _ _ _ H) as (x & y & z & Ho & Hr). cbv zeta in Hr. subst r.
     unfold k_rg_origins in Ho. cbn in Ho. rops.
-    change (EPD - @min_list ROps (sliceZ pos 1 (Some (-1)%Z))) with offset in Ho.
+    change (k_rg_z_offset ROps pos EPD EPL) with offset in Ho.
     rewrite Hp1 in Ho.
     inversion Ho as [[Hx0 Hy0 Hz0]]. clear Ho. subst x y z.
     cbn [r_x r_y r_z r_L r_M r_N].
@@ -123,23 +137,24 @@ Section Launch.
     repeat split; try (unfold D in *; field; split; lra); try lra.
   Qed.
 
-  (** *** Infinite object, angle fields (first surface at z = 0): the ray travels at the field angle,
-      tan = M/N = tan(Hy x max_field), from the plane z = -offset; it travels forward exactly when the entrance
-      pupil lies to the right of that plane *)
+  (** *** Infinite object, angle fields (first surface at z = 0, EPD > 0): the ray travels FORWARD at the field angle,
+      tan = M/N = tan(Hy x max_field), from the plane z = -offset, which lies at least one pupil diameter to the
+      left of the entrance pupil and of every surface of the lens *)
   Theorem launch_infinite_angle r :
-    gen true "angle" false = Some r -> getZ (O := ROps) pos 1 = 0 -> offset + EPL <> 0 ->
-    r_M r = r_N r * tany /\ r_L r = - (r_N r * tanx) /\ r_N r <> 0 /\ r_z r = - offset /\
-    (0 < offset + EPL -> 0 < r_N r) /\ (offset + EPL < 0 -> r_N r < 0).
+    gen true "angle" false = Some r -> getZ (O := ROps) pos 1 = 0 -> 0 < EPD ->
+    r_M r = r_N r * tany /\ r_L r = - (r_N r * tanx) /\ 0 < r_N r /\
+    r_z r = - offset /\ r_z r + EPD <= EPL /\ r_z r + EPD <= zmin.
   Proof.
-    intros H Hp Hne. destruct (inf_angle_dir r H Hp Hne) as (HL & HM & HN & Hz & Hs).
+    intros H Hp HE. destruct offset_bounds as [Hb1 Hb2].
+    assert (Hne : offset + EPL <> 0) by lra.
+    assert (G1 : - offset + EPD <= EPL) by lra. assert (G2 : - offset + EPD <= zmin) by lra.
+    destruct (inf_angle_dir r H Hp Hne) as (HL & HM & HN & Hz & Hs).
     set (s := sqrt _) in *. set (D := offset + EPL) in *.
+    assert (HD : 0 < D) by lra.
     assert (HA : 0 < Rabs D) by (apply Rabs_pos_lt; exact Hne).
     assert (Hden : 0 < Rabs D * s) by (apply Rmult_lt_0_compat; assumption).
-    rewrite HL, HM, HN, Hz. repeat split; try ring.
-    - intro E. apply Hne. unfold Rdiv in E. apply Rmult_integral in E. destruct E as [E|E]; [exact E|].
-      exfalso. assert (0 < / (Rabs D * s)) by (apply Rinv_0_lt_compat; exact Hden). lra.
-    - intro Hpos. apply Rdiv_lt_0_compat; assumption.
-    - intro Hneg. unfold Rdiv. assert (0 < / (Rabs D * s)) by (apply Rinv_0_lt_compat; exact Hden). nra.
+    rewrite HL, HM, HN, Hz. repeat split; try ring; try lra.
+    apply Rdiv_lt_0_compat; assumption.
   Qed.
 
   (** *** Finite object, angle fields: the rays start on the object plane z = positions[0]; the chief ray
@@ -177,57 +192,61 @@ Section Launch.
 
   (** *** Telecentric object space (finite object, height fields, object-space NA): the rays start on the
       object at the field height; the chief ray leaves parallel to the axis; the ray through the rim of the
-      unvignetted pupil makes sin(theta) = NA with the axis; every direction is a unit vector *)
+      unvignetted pupil makes n0 sin(theta) = NA with the axis (n0: object-space index); every direction is a unit vector *)
   Theorem launch_telecentric r :
-    k_rg_generate ROps Hx Hy Px Py w v0 v1 mf false "object_height" true EPL EPD pos objR objk objz "objectNA" apv pol upol
+    k_rg_generate ROps Hx Hy Px Py w v0 v1 mf false "object_height" true EPL EPD pos objR objk objz "objectNA" n0 apv pol upol
       = Some r ->
-    0 < apv < 1 ->
+    0 < apv / n0 < 1 ->
     r_x r = mf * Hx /\ r_y r = mf * Hy /\ r_z r = k_std_sag ROps (mf * Hx) (mf * Hy) objR objk + objz /\
     r_L r * r_L r + r_M r * r_M r + r_N r * r_N r = 1 /\ 0 < r_N r /\ r_i r = 1 /\ r_w r = w /\
     (Px = 0 -> Py = 0 -> r_L r = 0 /\ r_M r = 0 /\ r_N r = 1) /\
-    (Px = 0 -> Py = 1 -> v1 = 0 -> r_L r = 0 /\ r_M r = apv) /\
+    (Px = 0 -> Py = 1 -> v1 = 0 -> r_L r = 0 /\ n0 * r_M r = apv) /\
     (* general pupil point: tan(theta) scales linearly with the (vignetted) pupil radius *)
-    r_L r = r_N r * (Px * (1 - v0)) * (apv / sqrt (1 - apv * apv)) /\
-    r_M r = r_N r * (Py * (1 - v1)) * (apv / sqrt (1 - apv * apv)).
+    r_L r = r_N r * (Px * (1 - v0)) * ((apv / n0) / sqrt (1 - (apv / n0) * (apv / n0))) /\
+    r_M r = r_N r * (Py * (1 - v1)) * ((apv / n0) / sqrt (1 - (apv / n0) * (apv / n0))).
   Proof.
-    intros H [Hna0 Hna1].
+    intros H Hna.
+    assert (Hn0 : n0 <> 0).
+    { intro E. rewrite E in Hna. unfold Rdiv in Hna. rewrite Rinv_0, Rmult_0_r in Hna. lra. }
     unfold k_rg_generate, k_rg_origins in H. cbn in H. rops.
-    set (c := sqrt (1 - apv * apv)) in *.
-    assert (Hc2 : c * c = 1 - apv * apv) by (unfold c; apply sqrt_sqrt; nra).
+    set (s := apv / n0) in *. destruct Hna as [Hna0 Hna1].
+    set (c := sqrt (1 - s * s)) in *.
+    assert (Hc2 : c * c = 1 - s * s) by (unfold c; apply sqrt_sqrt; nra).
     assert (Hc : 0 < c) by (unfold c; apply sqrt_lt_R0; nra).
     set (x0 := mf * Hx) in *. set (y0 := mf * Hy) in *.
     set (z0 := k_std_sag ROps x0 y0 objR objk + objz) in *.
     set (a := Px * (1 - v0)) in *. set (b := Py * (1 - v1)) in *.
     set (m := sqrt _) in H.
-    assert (Hpos : 0 < (a + x0 - x0) * (a + x0 - x0) + (b + y0 - y0) * (b + y0 - y0) + (c / apv + z0 - z0) * (c / apv + z0 - z0)).
-    { assert (0 < c / apv) by (apply Rdiv_lt_0_compat; lra).
-      replace (c / apv + z0 - z0) with (c / apv) by ring. nra. }
+    assert (Hpos : 0 < (a + x0 - x0) * (a + x0 - x0) + (b + y0 - y0) * (b + y0 - y0) + (c / s + z0 - z0) * (c / s + z0 - z0)).
+    { assert (0 < c / s) by (apply Rdiv_lt_0_compat; lra).
+      replace (c / s + z0 - z0) with (c / s) by ring. nra. }
     assert (Hm : 0 < m) by (unfold m; apply sqrt_lt_R0; exact Hpos).
-    assert (Hmm : m * m = a*a + b*b + (c/apv)*(c/apv)).
+    assert (Hmm : m * m = a*a + b*b + (c/s)*(c/s)).
     { unfold m. rewrite sqrt_sqrt by lra. ring. }
-    assert (Hr : r = (x0, y0, z0, (a + x0 - x0)/m, (b + y0 - y0)/m, (c/apv + z0 - z0)/m, 1, 1 * w)).
+    assert (Hr : r = (x0, y0, z0, (a + x0 - x0)/m, (b + y0 - y0)/m, (c/s + z0 - z0)/m, 1, 1 * w)).
     { destruct (String.eqb pol "ignore"); [destruct upol; [discriminate|]|]; inversion H; reflexivity. }
     subst r. cbn [r_x r_y r_z r_L r_M r_N r_i r_w].
-    assert (Hq : 0 < c / apv) by (apply Rdiv_lt_0_compat; lra).
+    assert (Hq : 0 < c / s) by (apply Rdiv_lt_0_compat; lra).
     repeat split; try reflexivity; try ring.
-    - transitivity ((a*a + b*b + (c/apv)*(c/apv)) / (m*m)); [field; lra|]. rewrite Hmm. field. nra.
-    - replace (c / apv + z0 - z0) with (c / apv) by ring. apply Rdiv_lt_0_compat; assumption.
+    - transitivity ((a*a + b*b + (c/s)*(c/s)) / (m*m)); [field; lra|]. rewrite Hmm. field. nra.
+    - replace (c / s + z0 - z0) with (c / s) by ring. apply Rdiv_lt_0_compat; assumption.
     - unfold a. rewrite H0. field. lra.
     - unfold b. rewrite H1. field. lra.
     - (* N = 1 for the chief ray *)
       assert (Ea : a = 0) by (unfold a; rewrite H0; ring).
       assert (Eb : b = 0) by (unfold b; rewrite H1; ring).
-      assert (Em : m = c / apv).
+      assert (Em : m = c / s).
       { apply Rsqr_inj; try lra. unfold Rsqr. rewrite Hmm, Ea, Eb. ring. }
       rewrite Em. field. split; lra.
     - unfold a. rewrite H0. field. lra.
     - (* sin(theta) = NA for the marginal ray *)
       assert (Ea : a = 0) by (unfold a; rewrite H0; ring).
       assert (Eb : b = 1) by (unfold b; rewrite H1, H2; ring).
-      assert (Em : m = 1 / apv).
+      assert (Em : m = 1 / s).
       { apply Rsqr_inj; try lra. { apply Rlt_le. apply Rdiv_lt_0_compat; lra. }
         unfold Rsqr. rewrite Hmm, Ea, Eb.
-        transitivity ((apv*apv + c*c) / (apv*apv)); [field; lra|]. rewrite Hc2. field. lra. }
+        transitivity ((s*s + c*c) / (s*s)); [field; lra|]. rewrite Hc2. field. lra. }
+      replace (n0 * ((b + y0 - y0) / m)) with (n0 * s); [unfold s; field; exact Hn0|].
       rewrite Em, Eb. field. lra.
     - field. repeat split; lra.
     - field. repeat split; lra.
@@ -237,14 +256,15 @@ End Launch.
 (** all rays of one field of an infinite object are parallel: the direction does not depend on the pupil point
     nor on the vignetting factors *)
 Theorem launch_infinite_parallel :
-  forall Hx Hy w mf EPL EPD objR objk objz apv pos ap pol upol Px Py v0 v1 Px' Py' v0' v1' r r',
-    k_rg_generate ROps Hx Hy Px Py w v0 v1 mf true "angle" false EPL EPD pos objR objk objz ap apv pol upol = Some r ->
-    k_rg_generate ROps Hx Hy Px' Py' w v0' v1' mf true "angle" false EPL EPD pos objR objk objz ap apv pol upol = Some r' ->
-    getZ (O := ROps) pos 1 = 0 -> offset EPD pos + EPL <> 0 ->
+  forall Hx Hy w mf EPL EPD objR objk objz n0 apv pos ap pol upol Px Py v0 v1 Px' Py' v0' v1' r r',
+    k_rg_generate ROps Hx Hy Px Py w v0 v1 mf true "angle" false EPL EPD pos objR objk objz ap n0 apv pol upol = Some r ->
+    k_rg_generate ROps Hx Hy Px' Py' w v0' v1' mf true "angle" false EPL EPD pos objR objk objz ap n0 apv pol upol = Some r' ->
+    getZ (O := ROps) pos 1 = 0 -> 0 < EPD ->
     r_L r = r_L r' /\ r_M r = r_M r' /\ r_N r = r_N r'.
 Proof.
-  intros until r'. intros H H' Hp Hne.
-  destruct (inf_angle_dir _ _ _ _ _ _ _ _ _ _ _ _ _ _ _ _ _ _ _ H Hp Hne) as (HL & HM & HN & _).
-  destruct (inf_angle_dir _ _ _ _ _ _ _ _ _ _ _ _ _ _ _ _ _ _ _ H' Hp Hne) as (HL' & HM' & HN' & _).
+  intros until r'. intros H H' Hp HE.
+  assert (Hne : offset EPL EPD pos + EPL <> 0) by (destruct (offset_bounds EPL EPD pos); lra).
+  destruct (inf_angle_dir _ _ _ _ _ _ _ _ _ _ _ _ _ _ _ _ _ _ _ _ H Hp Hne) as (HL & HM & HN & _).
+  destruct (inf_angle_dir _ _ _ _ _ _ _ _ _ _ _ _ _ _ _ _ _ _ _ _ H' Hp Hne) as (HL' & HM' & HN' & _).
   rewrite HL, HM, HN, HL', HM', HN'. auto.
 Qed.
